@@ -202,7 +202,7 @@ def judge(ctx: Ctx, obs, rec, group):
             o["term_" + side], o["sites_" + side], o["how_" + side] = terminal_info(by.get(o[side + "id"], []))
         sc0 = o["sc"]
         # calm: nobody calls abort(), no timeout (0.8 s) can have expired, no thread died
-        calm = ("abort" not in sc0["end"] and sc0["acc"] not in ("handler_abort", "notify_abort") and not (sc0["side"] and sc0["side"][0].endswith("abort"))
+        calm = ("abort" not in sc0["end"] and sc0["acc"] not in ("handler_abort", "notify_abort", "abort_back") and not (sc0["side"] and sc0["side"][0].endswith("abort"))
                 and o["elapsed"] < 0.75 and o["cause"] == "none" and sc0["reject"] != "nocx")
         pair_tr.append({"id": o["id"], "r": o["r"], "a": o["a"], "in_time": o["in_time"], "calm": calm})
         for side, aid, peer in (("r", o["rid"], o["aid"]), ("a", o["aid"], o["rid"])):
